@@ -16,6 +16,7 @@ import os
 import numpy as np
 
 from vf import core
+from vf import callforms
 from vf import solverlib as sl
 
 PROPERTY = "C11"
@@ -166,6 +167,50 @@ def case_grid(case):
             "obs": {"returned": returned, "raised": raised, "lowpass_tested": ntested, "padded": [nxe, nye]}}
 
 
+def case_interface(case):
+    """the same obligation through the configuration-driven single run: for every grid size (even or odd) and mode request the
+    run either raises or returns fields of the configured shape on x = i*dx, y = j*dy whose flux at the lowest level, with
+    every mode kept, is the unit impulse at the tower cell"""
+    import warnings
+
+    from bldfm.config_parser import parse_config_dict
+    from bldfm.interface import run_bldfm_single
+
+    nx, ny = case["nx"], case["ny"]
+    xmax, ymax = 10.0 * nx, 15.0 * ny
+    v = []
+    n = 0
+    returned = 0
+    for modes in ([4, 4], [2, 6], [64, 64], [nx + (nx % 2), ny + (ny % 2)]):
+        cfg = parse_config_dict({"domain": {"nx": nx, "ny": ny, "xmax": xmax, "ymax": ymax, "nz": 3, "modes": modes, "halo": case["halo"], "output_levels": [0, 3]},
+                                 "towers": [{"name": "t", "lat": 0.0, "lon": 0.0, "z_m": 5.0}], "met": {"ustar": 0.4, "mol": -50.0, "wind_speed": 3.0, "wind_dir": 200.0},
+                                 "solver": {"footprint": True, "precision": "double"}})
+        cfg.towers[0].x, cfg.towers[0].y = 10.0 * 1, 15.0 * 2
+        n += 1
+        try:
+            with warnings.catch_warnings():
+                warnings.simplefilter("ignore")
+                r = run_bldfm_single(cfg, cfg.towers[0])
+        except Exception:
+            continue
+        returned += 1
+        lab = "nx=%d ny=%d halo=%r modes=%r through run_bldfm_single" % (nx, ny, case["halo"], modes)
+        f = np.asarray(r["flx"])
+        if f.shape != (2, ny, nx):
+            v.append({"sub": "interface", "sig": "interface/shape", "msg": "%s: returned shape %s" % (lab, f.shape)})
+            continue
+        X, Y = np.asarray(r["grid"][0]), np.asarray(r["grid"][1])
+        Xw, Yw = np.meshgrid(np.arange(nx) * (xmax / nx), np.arange(ny) * (ymax / ny))
+        if X.shape[-2:] != (ny, nx) or not (np.allclose(X.reshape(-1, ny, nx)[0], Xw, rtol=1e-13, atol=1e-12) and np.allclose(Y.reshape(-1, ny, nx)[0], Yw, rtol=1e-13, atol=1e-12)):
+            v.append({"sub": "interface", "sig": "interface/coords", "msg": "%s: returned coordinates are not x=i*dx, y=j*dy (x[1]=%r, dx=%r)" % (lab, float(X.reshape(-1, ny, nx)[0][0, 1]), xmax / nx)})
+        if modes[0] >= 64:
+            anchor = sl.impulse(ny, nx, 2, 1)
+            ea = float(np.abs(f[0] - anchor).max())
+            if not ea <= 1e-9:
+                v.append({"sub": "interface", "sig": "interface/anchor", "msg": "%s: with every mode kept the flux at the lowest level differs from the unit impulse at the tower cell by %.2e" % (lab, ea)})
+    return {"v": v[:4], "nt": returned if returned else False, "n": n, "obs": {"returned": returned}}
+
+
 def run(ctx):
     os.environ["VERIF_SEED"] = str(ctx.seed)
     core.warm_numba()
@@ -175,8 +220,10 @@ def run(ctx):
         "non-trivial = (case, mode pair) combinations that RETURNED a field (raising is allowed and carries no further obligation); evaluations counts solver calls"
         % (hi, mhi)
     )
+    callforms.run_solver_forms(ctx)
     res = ctx.run_cases(case_grid, cases(ctx.tier), sub="grid", chunksize=1)
     res += ctx.run_cases(case_grid, fine_cases(ctx.tier), sub="fine cells under a deep column (analytic mode)", chunksize=1)
+    ctx.run_cases(case_interface, [{"nx": a_, "ny": b_, "halo": h_} for a_ in (4, 5, 7, 8) for b_ in (4, 5, 6) for h_ in (0.0, None, 13.0)], sub="through the configuration-driven run")
     ret = int(sum(r.get("obs", {}).get("returned", 0) for r in res))
     rs = {}
     for r in res:
